@@ -194,6 +194,10 @@ pub struct Expected {
     pub basic_terms: BTreeSet<Vec<u8>>,
     pub total_tokens: u64,
     pub tokens_per_doc: Vec<u32>,
+    /// JSON fields: per document the leaf events in traversal order, in the line-protocol text of
+    /// the Lean model (`<pathhex>~T~<tokens>` / `<pathhex>~N~<termhex>`)
+    pub json_events: Vec<Vec<String>>,
+    pub json_cur: Vec<String>,
 }
 
 impl Expected {
@@ -343,6 +347,7 @@ fn json_walk(
         let t = json_fast_term(&path, code, payload);
         e.basic_terms.insert(t.clone());
         e.occurrence(&t, doc, 0);
+        e.json_cur.push(format!("{}~N~{}", crate::model::hex(&path), crate::model::hex(&t)));
     };
     match v {
         OwnedValue::Null => {}
@@ -351,7 +356,15 @@ fn json_walk(
             let end_position = state.entry(path.clone()).or_insert(0);
             let base = *end_position;
             let mut end_candidate = base;
+            let mut ev: Vec<String> = vec![];
             for t in toks {
+                {
+                    let mut full = path.clone();
+                    full.push(0);
+                    full.push(b's');
+                    full.extend_from_slice(&t.term);
+                    ev.push(format!("{}:{}:{}", crate::model::hex(&full), t.pos, t.plen));
+                }
                 let start = base + t.pos;
                 end_candidate = end_candidate.max(start + t.plen);
                 let mut term = path.clone();
@@ -362,6 +375,7 @@ fn json_walk(
                 *ntok += 1;
             }
             *end_position = end_candidate + POSITION_GAP;
+            e.json_cur.push(format!("{}~T~{}", crate::model::hex(&path), if ev.is_empty() { "_".to_string() } else { ev.join(",") }));
         }
         OwnedValue::U64(x) => {
             if *x <= i64::MAX as u64 {
@@ -434,6 +448,8 @@ pub fn invert_json(case: &SegCase, fi: usize, index: &Index, dropped: &mut u64) 
             }
         }
         e.tokens_per_doc.push(ntok);
+        let cur = std::mem::take(&mut e.json_cur);
+        e.json_events.push(cur);
     }
     e
 }
